@@ -70,7 +70,7 @@ impl Engine for XferEngine {
         "C12"
     }
     fn budget(&self) -> (u64, u64) {
-        (60_000, 240)
+        (250_000, 240)
     }
     fn generate(&self, seed: u64, _tier: Tier) -> Case<XferCfg, XferOp> {
         let mut c = Prng::stream(seed, 1);
